@@ -735,7 +735,8 @@ pub fn judge_under_faults(plan: &ClientPlan, run: &ClientRun) -> Judged {
     let pre = plan.cfg.pre_auth;
     let cur = plan.cfg.currency as u64;
     let max = plan.cfg.max_tx as usize;
-    let mut open: std::collections::BTreeSet<String> = Default::default();
+    // open token -> receipts the terminal issued (completed reservation) during the begin that opened it
+    let mut open: std::collections::BTreeMap<String, Vec<u16>> = Default::default();
     for o in &run.ops {
         match &o.result {
             OpResult::Panic { loc, msg } => {
@@ -763,7 +764,7 @@ pub fn judge_under_faults(plan: &ClientPlan, run: &ClientRun) -> Judged {
         let pk: Vec<&Pkt> = reqs.iter().filter_map(|r| r.pkt.as_ref()).collect();
         match op {
             OpSpec::Begin { token, .. } => {
-                let refused = open.len() == max || open.contains(token);
+                let refused = open.len() == max || open.contains_key(token);
                 if refused {
                     j.stats.hit("probe.begin_refused");
                     if traffic {
@@ -776,7 +777,7 @@ pub fn judge_under_faults(plan: &ClientPlan, run: &ClientRun) -> Judged {
                 }
                 match &o.result {
                     OpResult::Ok(_) => {
-                        open.insert(token.clone());
+                        open.insert(token.clone(), reqs.iter().filter(|r| (r.frame[0], r.frame[1]) == (0x06, 0x22)).filter_map(|r| r.issued_receipt).collect());
                     }
                     OpResult::Err { kind: ErrKind::ActiveTransaction(_), .. } => {
                         j.fail("C07", "accepted_call_refused", "begin", format!("begin({token:?}) refused although the token is not open and {} < {max} are open", open.len()));
@@ -803,7 +804,7 @@ pub fn judge_under_faults(plan: &ClientPlan, run: &ClientRun) -> Judged {
             }
             OpSpec::Commit { token, .. } | OpSpec::Cancel { token, .. } => {
                 let is_commit = matches!(op, OpSpec::Commit { .. });
-                if !open.contains(token) {
+                if !open.contains_key(token) {
                     j.stats.hit("probe.unknown_token_refused");
                     if traffic {
                         j.fail("C07", "refused_call_traffic", name, format!("{name}({token:?}) on a token that is not open caused traffic"));
@@ -814,7 +815,7 @@ pub fn judge_under_faults(plan: &ClientPlan, run: &ClientRun) -> Judged {
                     }
                     continue;
                 }
-                open.remove(token);
+                let issued_for_token = open.remove(token).unwrap_or_default();
                 if let OpResult::Err { kind: ErrKind::UnknownToken(_), .. } = &o.result {
                     j.fail("C07", "accepted_call_refused", name, format!("{name}({token:?}) refused although begin({token:?}) had returned Ok and the token was never closed"));
                     continue;
@@ -836,6 +837,10 @@ pub fn judge_under_faults(plan: &ClientPlan, run: &ClientRun) -> Judged {
                             own_receipts.push(r);
                             if !mine.contains(&(r as u16)) {
                                 j.fail("C07", "reversal_receipt", name, format!("{name}({token:?}) acts on receipt {r}, which the terminal never offered for a reservation with that reference (offered: {:?})", mine));
+                            } else if !issued_for_token.is_empty() && !issued_for_token.contains(&(r as u16)) {
+                                // offered in an attempt that never completed (connection lost before the
+                                // completion): the terminal issued another number for the reservation it booked
+                                j.fail("C07", "reversal_receipt", name, format!("{name}({token:?}) acts on receipt {r}, which the terminal offered in an attempt that never completed; the reservation it completed for this token got {:?}", issued_for_token));
                             }
                         } else if !dangling.contains(&(r as u16)) {
                             j.fail("C07", "foreign_receipt", name, format!("{name}({token:?}) reversed receipt {r}, neither its own nor reported as dangling"));
@@ -915,7 +920,7 @@ pub fn judge_under_faults(plan: &ClientPlan, run: &ClientRun) -> Judged {
         }
         let mut h = Hasher64::default();
         h.u64(max as u64);
-        for t in &open {
+        for t in open.keys() {
             h.str(t);
         }
         j.states.push(h.finish());
